@@ -24,7 +24,7 @@ SO = {"threads": 1, "time_limit": 20}
 
 FLOWCLS = W.FD + W.ERR
 KINDS = ["non_string_nodes", "cyclic_for_dag", "no_source", "no_sink", "negative_weight", "missing_weight", "non_conserving", "constraint_absent_edge",
-         "constraint_not_list", "constraint_empty", "constraint_not_tuples", "coverage_zero", "coverage_negative", "coverage_above_one", "k_zero", "k_negative",
+         "constraint_not_list", "constraint_empty", "constraint_not_tuples", "constraint_edge_as_list", "k_zero_superset", "k_negative_superset", "coverage_zero", "coverage_negative", "coverage_above_one", "k_zero", "k_negative",
          "weight_type_str", "weight_type_complex", "weight_type_bool", "weight_type_subclass", "origin_unknown", "unknown_start", "unknown_end", "scale_above_one", "scale_negative", "ignore_malformed",
          "plr_mismatch", "plf_float", "empty_graph"]
 
@@ -40,8 +40,12 @@ def applicable(cls, kind, inst, meta):
         return not cover
     if kind == "non_conserving":
         return cls in ("kFlowDecomp", "MinFlowDecomp", "MinFlowDecompCycles") and not node and "elements_to_ignore" not in kw
+    if kind == "constraint_empty":
+        return True
     if kind.startswith("constraint") or kind.startswith("coverage"):
         return not node
+    if kind in ("k_zero_superset", "k_negative_superset"):
+        return cls in ("kFlowDecomp", "kLeastAbsErrors", "kMinPathError") and "elements_to_ignore" not in kw
     if kind in ("k_zero", "k_negative"):
         return cls.startswith("k")
     if kind.startswith("weight_type"):
@@ -121,6 +125,13 @@ def mutate(kind, cls, inst, meta, rng):
         kw[ckey] = (kw.get(ckey) or []) + [[]]
     elif kind == "constraint_not_tuples":
         special = "constraint_not_tuples"
+    elif kind == "constraint_edge_as_list":
+        if not sp["edges"]:
+            return None
+        special = "constraint_edge_as_list"
+    elif kind in ("k_zero_superset", "k_negative_superset"):
+        kw["k"] = 0 if kind == "k_zero_superset" else -1
+        kw["solution_weights_superset"] = [5, 3, 2] if kw.get("weight_type") == "int" else [5.0, 3.0, 0.5]
     elif kind.startswith("coverage"):
         if not kw.get(ckey):
             if not sp["edges"]:
@@ -191,6 +202,9 @@ def construct_special(inst):
     if special == "constraint_not_tuples":
         key = "subset_constraints" if inst["cls"].endswith("Cycles") else "subpath_constraints"
         kw[key] = [[sp["edges"][0][0], sp["edges"][0][1]]] if sp["edges"] else [["x"]]
+    if special == "constraint_edge_as_list":
+        key = "subset_constraints" if inst["cls"].endswith("Cycles") else "subpath_constraints"
+        kw[key] = [[[sp["edges"][0][0], sp["edges"][0][1]]]]          # an edge written as a list instead of a tuple
     if special == "raw_ignore":
         pass
     if kw.get("weight_type") == "str":
@@ -347,6 +361,29 @@ def run_case(case):
             out = run_model(cls, single.copy(), kw); obs["c19.converse_judged"] += 1
             if out["exc"] is not None:
                 viol.append({"sig": f"C19/in-domain-input-raises/{cls}/{out['exc']}/single-edge", "msg": f"{out['exc']}: {out.get('msg')}"})
+        # an exactly conserved float flow (same multiset of values in and out of v) must be accepted whatever the insertion order of the edges
+        for order in ([0.1, 0.2, 0.3], [0.3, 0.2, 0.1], [0.2, 0.3, 0.1]):
+            Gf = nx.DiGraph()
+            for i, f in enumerate([0.1, 0.2, 0.3]):
+                Gf.add_edge(f"s{i}", "v", flow=f)
+            for i, f in enumerate(order):
+                Gf.add_edge("v", f"t{i}", flow=f)
+            for cls in ("kFlowDecomp", "MinFlowDecomp", "MinFlowDecompCycles"):
+                kw = {"flow_attr": "flow", "weight_type": float, "solver_options": dict(SO)}
+                if cls.startswith("k"):
+                    kw["k"] = 3
+                out = run_model(cls, Gf.copy(), kw); obs["c19.converse_judged"] += 1
+                if out["exc"] is not None:
+                    viol.append({"sig": f"C19/in-domain-input-raises/{cls}/{out['exc']}/float-conservation-order", "msg": f"{out['exc']}: {out.get('msg')}; out-edges inserted as {order}"})
+        # weights are only required to be non-negative: an all-zero flow is inside the domain
+        Gz = nx.DiGraph(); Gz.add_edge("a", "b", flow=0); Gz.add_edge("b", "c", flow=0)
+        for cls in W.FD + W.ERR:
+            kw = {"flow_attr": "flow", "weight_type": int, "solver_options": dict(SO)}
+            if cls.startswith("k"):
+                kw["k"] = 1
+            out = run_model(cls, Gz.copy(), kw); obs["c19.converse_judged"] += 1
+            if out["exc"] is not None:
+                viol.append({"sig": f"C19/in-domain-input-raises/{cls}/{out['exc']}/all-zero-flow", "msg": f"{out['exc']}: {out.get('msg')}"})
         return {"viol": viol, "obs": dict(obs), "nontrivial": True, "keys": ["corpus"], "sample": {"corpus": True}}
     # auxiliary classes
     which = case["which"]; rng = gen.rng_for(case["rs"])
